@@ -22,7 +22,7 @@ Proof.
   - cbn [strip_zeros_rev]. exact IH.
 Qed.
 
-Definition name_ok (k : list N) : Prop := k <> [] /\ Forall (fun x => 0 < x < 256) k.
+Definition name_ok (k : list N) : Prop := k <> [] /\ Forall (fun x => 0 < x) k.
 
 Lemma pad_key_length w k : (length k <= w)%nat -> length (pad_key w k) = w.
 Proof. intros H. unfold pad_key. rewrite app_length, repeatN_length. lia. Qed.
@@ -36,7 +36,7 @@ Proof.
   rewrite Forall_forall in Hnz. specialize (Hnz x Hin). destruct x; [lia|exact I].
 Qed.
 
-Lemma bytes_lt_pad : forall a b w, Forall (fun x => 0 < x < 256) a -> Forall (fun x => 0 < x < 256) b ->
+Lemma bytes_lt_pad : forall a b w, Forall (fun x => 0 < x) a -> Forall (fun x => 0 < x) b ->
   (length a <= w)%nat -> (length b <= w)%nat -> name_cmp a b = Lt ->
   bytes_lt (pad_key w a) (pad_key w b) = true.
 Proof.
@@ -127,7 +127,7 @@ Fixpoint names_increasing (l : list name) : Prop :=
   end.
 
 Lemma adjacent_keys w : forall (chroms : list (name * N)) (sz : name * N -> N),
-  Forall (fun c => (length (fst c) <= w)%nat /\ Forall (fun x => 0 < x < 256) (fst c)) chroms ->
+  Forall (fun c => (length (fst c) <= w)%nat /\ Forall (fun x => 0 < x) (fst c)) chroms ->
   names_increasing (map fst chroms) ->
   adjacent (fun a b : list N * N * N => bytes_lt (fst (fst a)) (fst (fst b)))
            (map (fun c => (pad_key w (fst c), snd c, sz c)) chroms) = true.
